@@ -159,6 +159,11 @@ func c13Origin(rng *rand.Rand, host string) (string, string) {
 		if h == host {
 			h = "K" + host
 		}
+		if rng.Intn(2) == 0 {
+			// the same look-alikes percent-encoded: url.Parse decodes them in the host
+			class = "unicode-fold-escaped"
+			h = strings.NewReplacer("\u212a", "%E2%84%AA", "\u017f", "%C5%BF").Replace(h)
+		}
 	case 8:
 		class = "invalid-utf8"
 		b := []byte(host)
